@@ -1,16 +1,37 @@
-(* Prop_C02.v — property C02: Parse is total (PARTIAL).
-   Proved: (1) the PEG part never fails on the regenerated grammar (C02_peg_never_fails): every
-   string reaches Execute, every rejection is raised by an action; (2) the comparison builders are not
-   recursive: operands are put in rank order with at most one swap (C02_compare_builder_total — the
-   pinned tree recursed for ever on two operands of equal rank, D1); (3) in the model a Parse
-   outcome is a function, a documented error or an explicit crash site, and syntax errors point
-   inside the path.  NOT yet proved: that no action reaches a crash site (stack discipline of the 46
-   actions: pop on an empty segment, failed type assertion, empty capture slice) and that the fuel
-   bound of the interpreter suffices (termination).  Both are covered by the correspondence check:
-   the generated strings (bounded-exhaustive reduced grammar included) run in isolated workers with a
-   time limit, and a model outcome `crash` or an implementation crash/timeout/undocumented error type
-   is a violation. *)
-From JP Require Import Peg Grammar Text Tree Actions PegFacts ParseFacts CompareFacts.
+(* Prop_C02.v — property C02: Parse is total.
+   C02_parse_total: in the model (PEG interpreter running the grammar regenerated from jsonpath.peg, then
+   the 46 actions replayed over the tokens of the match) every string gives a syntax tree or a
+   documented error.  Three ingredients, all evaluated on the regenerated grammar:
+   (1) the PEG part never fails (C02_peg_never_fails): every rejection is raised by an action;
+   (2) no action reaches a crash site of the action model — pop on an empty parameter list, a failed
+       type assertion, text[0:1] on an empty capture, a parse that ends without a root — for any input
+       (C02_no_crash_site): a verified stack-effect checker (StackCheck.v) types every rule of the grammar
+       against a summary (StackRules.v); the node chain, the save/restore of the parameter list around a
+       filter operand and the start rule are proved by hand in the same logic;
+   (3) the interpreter's fuel 200 + 40*|input| is never exhausted and no repetition spins without
+       consuming input (C02_fuel_suffices): every unguarded rule reference goes to a rule of lower rank,
+       every repeated body must consume (Fuel.v, FuelRules.v).
+   Also: the comparison builders do not recurse (the pinned tree recursed for ever on two operands of
+   equal rank, D1), and syntax errors point inside the path.
+   What remains outside the theorem: that the Go parser generated from jsonpath.peg behaves like the
+   interpreter and that the Go actions behave like Actions.v — decided by the correspondence check
+   (accept/reject, error, position, tree dumps; isolated workers with a time limit). *)
+From JP Require Import Peg Grammar Text Tree Actions PegFacts ParseFacts CompareFacts StackRules FuelRules.
+
+Theorem C02_parse_total : forall cfg parse_float regex_ok input,
+  (exists t, parse_with cfg parse_float regex_ok jsonpath_grammar input = ParseOk t) \/
+  (exists e, parse_with cfg parse_float regex_ok jsonpath_grammar input = ParseErr e).
+Proof. exact parse_total. Qed.
+Print Assumptions C02_parse_total.
+
+Theorem C02_no_crash_site : forall cfg parse_float regex_ok input s,
+  parse_with cfg parse_float regex_ok jsonpath_grammar input = ParseCrash s -> peg_parse jsonpath_grammar input = PFuel.
+Proof. exact parse_never_crashes. Qed.
+Print Assumptions C02_no_crash_site.
+
+Theorem C02_fuel_suffices : forall s, peg_parse jsonpath_grammar s <> PFuel.
+Proof. exact peg_never_out_of_fuel. Qed.
+Print Assumptions C02_fuel_suffices.
 
 Theorem C02_peg_never_fails : forall s, peg_parse jsonpath_grammar s <> PFail.
 Proof. intros s. exact (expression_total (parse_fuel s) s 0). Qed.
